@@ -1,5 +1,5 @@
 PROP = dict(
-        pkg="c20", level="property_based",
+        pkg="c20", level="exploration",
         rule="C20: generated value sequences through `fuse` at fuse.MemMaxBytes in {1, 100, 128MiB} and through `fuse(this)`; plus exhaustive enumeration of all sequences of <=3 values over a 15-shape alphabet",
         assumptions=[
             "whether a run took the spill path is decided by mirroring fuse.Fuser.stash (cumulative value bytes >= MemMaxBytes), not observed inside the operator",
